@@ -37,8 +37,10 @@ def run(tier, seed, replay=None):
         ["Lean compiler/runtime for the executable model (pkmodel c12)",
          "scenario harness /verif/harness/cmd/mgr (crash.go) and tools/mgrfam.py",
          "the OS applies file operations in program order and a closed file is durable (no fsync reasoning)"]))
-    rep.assumptions = ["crash points = every gate position / after every API call, plus one of the newest files cut at "
-                       "0, 1, 16, half, size-8, size-1 bytes; a crash inside a single write is a byte prefix",
+    rep.assumptions = ["crash points = every gate position / after every API call; additionally the most recently modified index or "
+                       "converter-cache file cut short (index file: header still the zero placeholder + any body prefix, since "
+                       "Finalize writes the header last; cache file: byte prefix of the last append); the saveState / "
+                       "snapshot replace-then-remove window is covered by the theorem saveState_crash_safe",
                        "captures handed to ImportPcaps but not yet imported are outside the statement (import queue is memory-only: finding F19)"]
     binpath, blog = pk.go_build("mgr")
     if binpath is None:
